@@ -36,14 +36,13 @@ def qbytes_mm(activations: torch.Tensor, weights: torch.Tensor, output_scales: t
 def qbytes_int_mm(activations: torch.Tensor, weights: torch.Tensor, output_scales: torch.Tensor) -> torch.Tensor:
     in_features = activations.shape[-1]
     out_features = weights.shape[0]
+    output_shape = activations.shape[:-1] + (out_features,)
+    # torch._int_mm ignores the strides of its operands (expanded or transposed views return garbage on CPU):
+    # it requires dense row-major activations
+    activations = activations.contiguous().view(-1).view(-1, in_features)
     # torch._int_mm works on transposed weights, i.e (in_features, out_features)
-    weights = weights.t()
-    if activations.ndim == 2:
-        out_data = torch._int_mm(activations, weights)
-    else:
-        output_shape = activations.shape[:-1] + (out_features,)
-        out_data = torch._int_mm(activations.reshape(-1, in_features), weights)
-        out_data = out_data.view(output_shape)
+    weights = weights.contiguous().t()
+    out_data = torch._int_mm(activations, weights).view(output_shape)
     # We must evaluate the output as float32 because the multiplication
     # of the int32 data by the scales might overflow
     fp32_output = out_data.to(torch.float32) * output_scales.t()
